@@ -13,7 +13,9 @@ def _gen_build(contract_c, fn, layout=False, cdefs=()):
         name, expected = genunit.build_gen_unit(gw, rl, layout_text=xlayout if layout else None)
         rl.check(expected)
         b = {'c_sources': [os.path.join(CONTRACTS, contract_c)] if contract_c else [], 'cxx_sources': [os.path.join(gw, name)], 'cdefs': list(cdefs),
-             'entry': 'h_' + fn, 'dropped': DROPPED_GEN, 'min_obligations': 10}
+             'entry': 'h_' + fn, 'dropped': DROPPED_GEN, 'min_obligations': 10,
+             # narrowing integer conversions are well defined (modular) in C++20: no --conversion-check for the compiler units
+             'cbmc_flags': ['--unwinding-assertions', '--no-malloc-may-fail']}
         if layout:
             b['c_sources'] = [os.path.join(gw, 'layout_gen_c.c')]
             b['entry'] = 'h_layout'
@@ -37,4 +39,6 @@ def groups():
         for fn in ('breakpoint', 'removeTopPotBreak', 'advanceLine'):
             gs.append(Group('genB_' + fn + sfx, ['C08', 'C07'], f'GenState::{fn} (Compiler/src/gen.cpp)', 'c_' + fn,
                             _gen_build('gen_tbl.c', fn, cdefs=[f'TBL_CAP={K}']), timeout=1800, tier=tier, bounded=BND % K))
+    for fn in ('strToInt', 'strToIntSilent'):
+        gs.append(Group('gen_' + fn, ['C20', 'C04', 'C02'], f'{fn} (Compiler/src/gen.cpp)', 'c_' + fn, _gen_build('gen_misc.c', fn), timeout=600))
     return gs
